@@ -287,8 +287,10 @@ type vpVerdictBase struct {
 	reject map[ClientMsg]bool
 }
 
-func (b *vpVerdictBase) ServeNostrStart(ctx context.Context) (context.Context, error) { return ctx, nil }
-func (b *vpVerdictBase) ServeNostrEnd(ctx context.Context) error                      { return nil }
+func (b *vpVerdictBase) ServeNostrStart(ctx context.Context) (context.Context, error) {
+	return ctx, nil
+}
+func (b *vpVerdictBase) ServeNostrEnd(ctx context.Context) error { return nil }
 func (b *vpVerdictBase) ServeNostrClientMsg(ctx context.Context, msg ClientMsg) (<-chan ClientMsg, <-chan ServerMsg, error) {
 	if b.reject[msg] {
 		return nil, newClosedBufCh[ServerMsg](NewServerNoticeMsg("rejected")), nil
